@@ -56,6 +56,14 @@ CLAIMED = {
             "symbolic execution of the real kdq-tree detectors with z3: bounded histories compared with the state machine of "
             "the statement (which rows reach build/fill, persistence counted in a row, drifted batch becomes the reference) and "
             "argument obligations on the real _get_critical_kld (draw size and distribution, halves, quantile level 1-alpha)"),
+    "C10": ("DESIGN.md 7/C10",
+            "np.unique(axis=0) modelled by sort+dedupe (validated against numpy each run); sklearn NearestNeighbors is a stub "
+            "(that the adjacency is the kNN relation is trusted, not decided); distance lemma assumes entries>=0, diagonal>=1, "
+            "0/1 membership covering all indices; NNDVI runs record permutation / norm.fit / norm.ppf",
+            "symbolic execution with z3 of the real NNSpacePartitioner.build on symbolic points (membership over the "
+            "de-duplicated union for all size pairs), of compute_nnps_distance on a symbolic matrix (per-point two-variable "
+            "lemma + linear composition: symmetric, in [0,1], 0 for equal samples) and of NNDVI.update/_compute_drift_threshold "
+            "with argument obligations at the library boundary"),
     "C12": ("DESIGN.md 7/C12",
             "members modelled as the most general objects with the detector interface (arbitrary states/recommendations after "
             "every call); selectors as tagging functions; real-member runs reuse the kernel stubs of C01/C02",
